@@ -110,10 +110,5 @@ func (s *Server) HandleIDPInitiated(w http.ResponseWriter, r *http.Request) {
 		}
 	}
 
-	vhook("rlock-req", "cfg", &s.idpConfigMu)
-	s.idpConfigMu.RLock()
-	vhook("rlock-acq", "cfg", &s.idpConfigMu)
-	defer s.idpConfigMu.RUnlock()
-	defer vhook("runlock", "cfg", &s.idpConfigMu)
 	s.IDP.ServeIDPInitiated(w, r, shortcut.ServiceProviderID, relayState)
 }
